@@ -20,7 +20,7 @@ def tokens_with_text(text):
 def randcase(rng, s):
     return "".join(c.upper() if rng.random() < 0.5 else c.lower() for c in s)
 
-def variant(rng, text, mode, WS_RUNS=WS_RUNS):
+def variant(rng, text, mode, WS_RUNS=WS_RUNS, p_ins=0.6):
     """re-spell one accepted filter: mode in {"ws", "case", "bws", "all"}"""
     toks = tokens_with_text(text)
     out = []
@@ -61,11 +61,11 @@ def variant(rng, text, mode, WS_RUNS=WS_RUNS):
             # optional whitespace where the grammar has BWS
             ins = False
             if ty == "(" and nxt != "WS" and not (nxt == ")" and prv == "ODATA_IDENTIFIER"):
-                ins = rng.random() < 0.6
+                ins = rng.random() < p_ins
             elif nxt in (")", ",", ":") and ty not in ("WS", "("):
-                ins = rng.random() < 0.6
+                ins = rng.random() < p_ins
             elif ty in (",", ":", "UMINUS") and nxt != "WS":
-                ins = rng.random() < 0.6
+                ins = rng.random() < p_ins
             if ins:
                 out.append(rng.choice(WS_RUNS))
     return "".join(out)
@@ -123,6 +123,9 @@ def backend_out(fn, node):
         return "exc " + type(e).__name__
 
 def run(ctx):
+    import sys
+    # the harness compares deep trees (long or-chains are left-nested) with the dataclasses' own recursive ==; both spellings of a filter run under the same limit
+    sys.setrecursionlimit(max(sys.getrecursionlimit(), 10000))
     common.build_and_audit(ctx, PROP_MODS, gen=lambda c: gen_tables.generate(["ParserTables"]))
     rng = ctx.rng
     base = list(gens.VALID_FILTERS) + ["b1 eq TRUE", "dt1 gt 2020-01-01T10:00:00Z", "f1 lt 1.5e3", "dt1 gt 2020-01-01T10:00:00.5+02:00 and b1 ne false",
@@ -133,6 +136,11 @@ def run(ctx):
                    "geo.intersects(geo1, geography'POINT(1  2)')", "s1 eq 'a  AND  b' and i1 eq 1", "concat(s1, '  ') eq 'a  ' and not (s1 eq 'NOT  x')",
                    "kids/any(k: k/s eq 'p  q')", "f.g(p='a  b', q=s1)", "s1 eq 'it''s  ok'"]
     base += WS_LITERALS
+    # LONG filters (hundreds of clauses, thousands of tokens): a re-layout changes the number of whitespace tokens by a large factor, never the meaning
+    LONG = [" or ".join(f"i1 in ({i},{i + 1})" for i in range(n)) for n in (100, 240, 300)] + \
+           [" and ".join(f"concat(s1,'{i}') ne 'x{i}'" for i in range(200)), "i1 in (" + ",".join(str(i) for i in range(1500)) + ")",
+            " or ".join(f"kids/any(k:k/x eq {i})" for i in range(150))]
+    base += LONG
     g = gens_typed.TypedGen(rng, fields={**gens_typed.FIELDS, "time": ["tm1"], "coll": ["c1"]})
     trees = [g.gen("bool", rng.randint(1, 4)) for _ in range(1500 if ctx.thorough else 250)]
     outs = driver.run_batch([driver.req("refprint", "min", "000000", enc(t)) for t in trees])
@@ -153,6 +161,14 @@ def run(ctx):
                 continue
             if v not in seen:
                 seen.add(v); cases.append((f, v, mode))
+        if f in LONG:
+            for runs in ([" "], ["\n"], ["  \t "]):
+                try:
+                    v = variant(rng, f, "all", runs, p_ins=1.0)     # a run at EVERY optional-whitespace position
+                except Exception:  # noqa
+                    continue
+                if v not in seen:
+                    seen.add(v); cases.append((f, v, "all"))
         # one whitespace kind at a time, everywhere (a line break somewhere in the filter, tabs only, ...)
         for runs in ((["\n"], ["\r\n"], ["\t"], ["\r"]) if (ctx.thorough or f in WS_LITERALS) else (["\n"],)):
             for mode in ("ws", "all"):
